@@ -379,6 +379,9 @@ func (x *Exec) valueFacts(v Value) {
 		if !v.Size.IsLit() {
 			x.addFact(v.Size, Le(IntLit(0), v.Size))
 		}
+		if v.IsNil != True && v.IsNil != False {
+			x.addFact(v.IsNil, Implies(v.IsNil, Eq(v.Size, IntLit(0))))
+		}
 	case KStruct:
 		for _, f := range v.Fields {
 			x.valueFacts(f)
@@ -588,7 +591,24 @@ func (c *Ctx) checkArith(r *Term, T types.Type, e ast.Expr, op string) {
 	if c.wraps(e) {
 		return
 	}
+	if cond := c.wrapsIf(e); cond != nil {
+		c.oblige("overflow", exprText(e), Implies(cond, inRange(r, T)), e.Pos())
+		return
+	}
 	c.oblige("overflow", exprText(e), inRange(r, T), e.Pos())
+}
+
+// wrapsIf: the overflow check of this operator is conditional on an assumption (e.g. A-VIEW).
+func (c *Ctx) wrapsIf(e ast.Expr) *Term {
+	txt := exprText(e)
+	for _, fr := range c.x.frames {
+		if fr.fi != nil && fr.fi.Spec != nil {
+			if ce, ok := fr.fi.Spec.WrapsIf[txt]; ok {
+				return c.specEval(ce, c.st, nil, nil)
+			}
+		}
+	}
+	return nil
 }
 
 func (c *Ctx) wraps(e ast.Expr) bool {
@@ -750,6 +770,9 @@ func (c *Ctx) arith(op token.Token, l, r *Term, T types.Type, e ast.Expr) *Term 
 		return wrapTo(res, T)
 	}
 	c.checkArith(res, T, e, op.String())
+	if c.wrapsIf(e) != nil {
+		return Ite(inRange(res, T), res, wrapTo(res, T))
+	}
 	return res
 }
 
